@@ -146,6 +146,9 @@ def main(argv=None):
                           'every path' % grp)
     # lemmas decided by evaluating the real tables / code (finite)
     lemma_results = []
+    # what the deductive run covered (lemmas may depend on it: a frame lemma
+    # accepts a store inside a function whose body was executed symbolically)
+    prop.RUN_INFO = {'verified': list(funcs_ok), 'inlined': sorted(inlined)}
     if hasattr(prop, 'lemmas'):
         for item in prop.lemmas():
             name, ok, detail = item[:3]
@@ -167,6 +170,16 @@ def main(argv=None):
                                        'observed': detail}})
 
     bounded = []
+    # bounded stand-ins cheap enough for the quick tier (prop.QUICK_BOUNDED:
+    # list of fn(seed) -> dict as in props/bounded.py): reported under
+    # bounded_stand_ins, never counted among the discharged obligations
+    for f in getattr(prop, 'QUICK_BOUNDED', []):
+        b = f(seed)
+        bounded.append(b)
+        for fl in (b.get('failures') or [])[:3]:
+            violations.append({'name': pid + ':bounded:' + b['name'],
+                               'model': {}, 'replay': {
+                                   'status': 'reproduced', 'input': fl}})
     mutant_report = []
     if tier == 'thorough' and not os.environ.get('PYVC_NO_MUTANTS'):
         mutant_report = run_mutants(pid)
